@@ -452,7 +452,7 @@ def cmdOK (distAlphabet npostfix ndirect : Nat) (c : Cmd) : Bool :=
   let clc := copyLenCode c.copyLenField
   let ds := c.distPrefix % 1024
   decide (c.cmdPrefix = getLengthCode c.insertLen clc (ds == 0)) &&
-  decide (c.insertLen ≤ 16777216) && decide (2 ≤ clc) && decide (clc ≤ 16777216 + 2118) &&
+  decide (c.insertLen ≤ 16777216) && decide (2 ≤ clc) && decide (clc < 16777216 + 2118) &&
   (decide (c.cmdPrefix ≥ 128) || ds == 0) &&
   decide (ds < distAlphabet) && decide (c.distPrefix < 65536) &&
   (if ds < 16 + ndirect then decide (c.distPrefix / 1024 = 0) && decide (c.distExtra = 0)
@@ -462,8 +462,9 @@ def cmdOK (distAlphabet npostfix ndirect : Nat) (c : Cmd) : Bool :=
 
 /-- the encoder's position bookkeeping agrees with the decoder's: before every command the bytes
 the RFC decoder has produced (`cursor`) equal the bytes the writer has skipped
-(`Σ insert_len + copy_len()`), every command but a closing insert-only one has `copy_len() ≠ 0`,
-and after the last command exactly `mb.length` bytes are produced.  (`copy_len()` differs from the
+(`Σ insert_len + copy_len()`), a command whose insert part completes the meta-block is the last one
+and has `copy_len() = 0` (the writers emit no distance for it, the decoder reads none), every other
+command has `copy_len() ≠ 0`, and after the last command exactly `mb.length` bytes are produced.  (`copy_len()` differs from the
 copy length code only for static-dictionary words with a length-changing transform.) -/
 def lockstep (wo : WordOracle) (npostfix ndirect window : Nat) (mb : Bytes) : DecSt → Nat → List Cmd → Bool
   | s, pos, [] => decide (s.cursor = pos) && decide (pos = mb.length)
@@ -472,7 +473,7 @@ def lockstep (wo : WordOracle) (npostfix ndirect window : Nat) (mb : Bytes) : De
     match decStep wo npostfix ndirect window mb s c with
     | none => false
     | some s' =>
-      if pos + c.insertLen = mb.length then cs.isEmpty && decide (s'.cursor = mb.length)
+      if pos + c.insertLen = mb.length then cs.isEmpty && decide (copyLen c = 0)
       else decide (copyLen c ≠ 0) && lockstep wo npostfix ndirect window mb s' (pos + c.insertLen + copyLen c) cs
 
 end BV.MetaBlock
